@@ -3,9 +3,100 @@ package main
 import (
 	"fmt"
 	"os"
+	"sort"
+	"strconv"
+	"strings"
+	"sync"
+	"time"
 )
 
+// selftest: determinism of the simulator (DESIGN.md 2.7). Every world executes the same seed
+// range in several fresh processes at GOMAXPROCS 1, 4 and 16 (two processes each); the digest of
+// everything observable per run (tapes, history, schedule signature, violations, faults) must be
+// identical. Not a property check: exit 0 = deterministic, 2 = divergence.
 func selftest(args []string) {
-	fmt.Fprintln(os.Stderr, "selftest: not built yet")
-	os.Exit(2)
+	n := 200
+	if v := os.Getenv("VERIF_SELFTEST_SEEDS"); v != "" {
+		if k, err := strconv.Atoi(v); err == nil {
+			n = k
+		}
+	}
+	want := map[string]bool{}
+	for _, a := range args {
+		want[a] = true
+	}
+	b := prepare()
+	defer b.cleanup()
+	ids := make([]string, 0, len(props))
+	for id := range props {
+		ids = append(ids, id)
+	}
+	sort.Strings(ids)
+	bad := 0
+	seenWorld := map[string]bool{}
+	for _, id := range ids {
+		pc := props[id]
+		if len(want) > 0 && !want[id] && !want[pc.World] {
+			continue
+		}
+		if seenWorld[pc.World] && len(want) == 0 {
+			continue // worlds shared by several properties run the same code
+		}
+		seenWorld[pc.World] = true
+		start := time.Now()
+		procs := []int{1, 1, 4, 4, 16, 16}
+		outs := make([]map[string]string, len(procs))
+		errs := make([]error, len(procs))
+		var wg sync.WaitGroup
+		for i, gmp := range procs {
+			wg.Add(1)
+			go func(i, gmp int) {
+				defer wg.Done()
+				env := []string{"VERIF_MODE=trace", "VERIF_WORLD=" + pc.World, "VERIF_PROP=" + id, "VERIF_TIER=quick",
+					"VERIF_SEED_LO=0", fmt.Sprintf("VERIF_SEED_HI=%d", n), fmt.Sprintf("GOMAXPROCS=%d", gmp)}
+				out, err := b.worker(env, 30*time.Minute)
+				errs[i] = err
+				m := map[string]string{}
+				for _, l := range strings.Split(out, "\n") {
+					if strings.HasPrefix(l, "TRACE ") {
+						f := strings.Fields(l)
+						if len(f) >= 4 {
+							m[f[1]] = f[2] + " " + f[3]
+						}
+					}
+				}
+				outs[i] = m
+			}(i, gmp)
+		}
+		wg.Wait()
+		diverged := []string{}
+		for i := range procs {
+			if errs[i] != nil || len(outs[i]) != n {
+				fmt.Fprintf(os.Stderr, "selftest %s: process %d (GOMAXPROCS=%d) produced %d of %d traces (%v)\n", pc.World, i, procs[i], len(outs[i]), n, errs[i])
+				bad++
+			}
+		}
+		for seed, h := range outs[0] {
+			for i := 1; i < len(procs); i++ {
+				if outs[i][seed] != h {
+					diverged = append(diverged, seed)
+					break
+				}
+			}
+		}
+		sort.Strings(diverged)
+		if len(diverged) > 0 {
+			bad++
+			if len(diverged) > 10 {
+				diverged = diverged[:10]
+			}
+			fmt.Printf("selftest %s (%s): NONDETERMINISTIC on %d seeds, e.g. %v\n", pc.World, id, len(diverged), diverged)
+		} else {
+			fmt.Printf("selftest %s (%s): %d seeds x %d processes (GOMAXPROCS 1,4,16) identical, %.1fs\n", pc.World, id, n, len(procs), time.Since(start).Seconds())
+		}
+	}
+	if bad > 0 {
+		b.cleanup()
+		os.Exit(2)
+	}
 }
